@@ -266,6 +266,8 @@ func (f *frame) selfBind() map[string]SV {
 	}
 	for _, fv := range f.fn.FreeVars {
 		bind[fv.Name()] = f.vals[fv]
+		// captured_<name>: the same variable under a name that result/argN bindings cannot hide
+		bind["captured_"+fv.Name()] = f.vals[fv]
 	}
 	if f.contract != nil && f.contract.Implements != "" {
 		for i, p := range f.fn.Params {
